@@ -44,6 +44,7 @@ type stepMods struct {
 	sendFail bool
 	// the wallet cannot create the opening transaction / the chain back-end cannot tell the height
 	openingFail, heightFail bool
+	tips                    []int64
 }
 
 type crashInfo struct {
@@ -97,6 +98,15 @@ func parseMods(name string) (*stepMods, string, bool) {
 			m.recover = strings.TrimPrefix(p, "recoverpay=")
 		case p == "send=fail":
 			m.sendFail = true
+		case strings.HasPrefix(p, "tips="):
+			// the answers of the height polls of this step, as offsets from the swap's recorded starting height
+			for _, x := range strings.Split(strings.TrimPrefix(p, "tips="), ",") {
+				v, err := strconv.ParseInt(strings.TrimPrefix(x, "+"), 10, 64)
+				if err != nil {
+					return nil, name, false
+				}
+				m.tips = append(m.tips, v)
+			}
 		case p == "opening=fail":
 			m.openingFail = true
 		case p == "height=fail":
@@ -200,6 +210,18 @@ func crashHook(sc *Scen, sp *stepSpec) {
 	}
 	if m.heightFail {
 		sp.plan.Height = []*uint32{nil}
+	}
+	if len(m.tips) > 0 {
+		if mm := sc.current(); mm != nil && mm.Data != nil {
+			sp.plan.Height = nil
+			for _, off := range m.tips {
+				h := int64(mm.Data.StartingBlockHeight) + off
+				if h < 0 {
+					h = 0
+				}
+				sp.plan.Height = append(sp.plan.Height, u32p(uint32(h)))
+			}
+		}
 	}
 	if m.retries > 0 {
 		if mm := sc.current(); mm != nil {
